@@ -567,8 +567,59 @@ def check_purge(ctx, facts, rule):
                 return it.oracle_log, (out, live.get('k'), dead.get('k'))
             for log, res in explore(run):
                 table[(inp, tuple(log))] = res
+        # several tombstones, standing for a set with any number of them (lengths compared with constants above the shown size are
+        # undecided): every tombstone is either returned — exactly when ITS stamp is before the cut-off — or kept; none vanishes
+        many = {'k1': 'd1', 'k2': 'd2', 'k3': 'd3'}
+
+        def by_stamp(interp, name, args, t, body):
+            v = interp.deref_all(args[0]) if args else None
+            if v is not None and v[0] == 'opaque' and str(v[1]).startswith('versions') and body.local_ty(t['dest']['l']) == 'bool':
+                st = [interp.deref_all(x) for x in args[1:]]
+                st = [x[1] for x in st if x is not None and x[0] == 'ts']
+                if len(st) == 1:
+                    prev = [val for lab, val in interp.oracle_log if lab == 'versions|' + st[0]]
+                    if prev:
+                        return absint.mk_bool(prev[0])       # one answer per stamp
+                    return absint.mk_bool(interp.choose('versions|' + st[0]))
+            return versions_oracle(interp, name, args, t, body)
+        many_results = []
+
+        def run_many(choices):
+            it = Interp(facts, Order({}), opaque_call=by_stamp)
+            it.symbolic_len = 'bounded'
+            it.choices = list(choices)
+            selfv = roles.make_set(live={'k0': 'e'}, dead=dict(many))
+            res = it.deref_all(it.run_body(body, arg_values(body, roles, selfv)))
+            if res[0] != 'vec':
+                raise Unmodelled('purge returns %s' % res[0])
+            out = sorted((it.deref_all(x)[1][0].v[1], it.deref_all(x)[1][1].v[1]) for x in res[1])
+            live, dead = roles.read_set(selfv)
+            return it.oracle_log, (out, dict(live), dict(dead))
+        for log, res in explore(run_many):
+            many_results.append((log, res))
     except (Unmodelled, IndexError, TypeError) as e:
         return _fallback(ctx, rule, e)
+    bad_many = []
+    n_many = 0
+    for log, res in many_results:
+        if res[0] == 'panic':
+            continue
+        ans = {lab.split('|', 1)[1]: val for lab, val in log if lab.startswith('versions|')}
+        if any(lab.startswith('versions') and '|' not in lab for lab, _v in log):
+            continue        # the cut-off is not asked per stamp: covered by the single-tombstone scenarios only
+        n_many += 1
+        out, live, dead = res
+        want_out = sorted((k, d) for k, d in many.items() if ans.get(d) is True)
+        want_dead = {k: d for k, d in many.items() if ans.get(d) is not True}
+        if out != want_out or dead != want_dead or live != {'k0': 'e'}:
+            lost = [k for k in many if k not in dead and k not in [o[0] for o in out]]
+            bad_many.append('with the stamps before the cut-off: %s the purge returns %s and keeps the tombstones %s%s' % (
+                {d: a for d, a in sorted(ans.items())}, out, sorted(dead),
+                ' — the tombstone of %s is neither returned nor kept: it vanishes, and an older write for that key is accepted again' % lost if lost else ''))
+    if n_many:
+        ctx.ob(rule, 'purge|several tombstones (a set of any size)', not bad_many, _site(body),
+               'purge on several tombstones (standing for any number): each is returned exactly when its own stamp is before the cut-off and kept otherwise, on all %d paths' % n_many
+               if not bad_many else bad_many[0])
     for inp in inputs:
         bad = []
         for g in (False, True):
